@@ -809,6 +809,7 @@ func TestVerifC07(t *testing.T) {
 	c07Strings(c, mc.Pick(c, 5, 6))
 	c07Texts(c, mc.Pick(c, 5, 6))
 	c07Grammar(c, mc.Pick(c, 5, 6))
+	c07Histories(c, mc.Pick(c, 3, 4))
 	if code := c.Finish(); code != 0 {
 		os.Exit(code)
 	}
